@@ -208,6 +208,9 @@ def expand_extract(ex, canary=False):
     text, n = rules.r6_panics(text, mode, ex.cfg)
     if n:
         fired.append('R6 panics=%s x%d' % (mode, n))
+    text, n = rules.r7_loop_value(text)
+    if n:
+        fired.append('R7b loop-value x%d' % n)
     text = _apply_rules(ex, text, fired)
     if canary and mode == 'diverge':
         text = text.replace('vx_diverge()', 'vx_nop()').replace('vx_assert_or_diverge(', 'vx_nop_b(')
